@@ -251,6 +251,15 @@ def _alarm(sig, frm):
 def _worker_main(conn, func, soft_timeout, init):
     signal.signal(signal.SIGALRM, _alarm)
     signal.signal(signal.SIGINT, signal.SIG_IGN)
+    if not os.environ.get("VERIF_WORKER_STDERR"):
+        # native libraries (z3) write diagnostics such as "ASSERTION VIOLATION" straight to fd 2; keep them out of the
+        # check's output (Python-level failures of a case are reported through the result pipe, not through stderr)
+        try:
+            fd = os.open(os.devnull, os.O_WRONLY)
+            os.dup2(fd, 2)
+            os.close(fd)
+        except OSError:
+            pass
     if init:
         init()
     while True:
